@@ -631,6 +631,15 @@ func (e *Env) evalCall(n ECall) Val {
 			return specVal(u.strLen(v.T, e.inQuant == 0), SInt)
 		}
 		e.fail("len of %s", v.Sort)
+	case "iszerovalue":
+		// iszerovalue(x): x is syntactically the zero value of its type at the call site (e.g. time.Time{}); for opaque
+		// values, whose content is not modelled, anything else is unknown
+		argn(1)
+		v := e.eval(n.Args[0])
+		if v.Zero {
+			return specVal("true", SBool)
+		}
+		return specVal(u.fresh("zerov", SBool), SBool)
 	case "base":
 		// base(s): identity of the backing array of a slice (0 for nil)
 		argn(1)
